@@ -170,11 +170,11 @@ def mount_guard(R, ctx, rule):
     b = ctx.body(r'^writers::file_log_writer::state::State::mount_next_linewriter_if_necessary$')
     EFF = [r'state::open_log_file$', r'RollState::rotation_necessary$', r'numbers::index_for_rcurrent$',
            r'timestamps::creation_timestamp_of_currentfile$', r'collision_free_infix_for_rotated_file$', r'^chrono::Local::now$',
-           r'timestamps::infix_from_timestamp$', r'numbers::number_infix$', r'reset_size_and_date$', r'remove_or_compress_too_old_logfiles$']
+           r'timestamps::infix_from_timestamp$', r'numbers::number_infix$', r'reset_size_and_date$', r'remove_or_compress_too_old_logfiles(_impl)?$']
     I = FDI(f, effects=EFF, no_inline=[r'state::open_log_file$', r'RollState::rotation_necessary$', r'numbers::index_for_rcurrent$',
                                        r'timestamps::creation_timestamp_of_currentfile$', r'collision_free_infix_for_rotated_file$',
                                        r'timestamps::infix_from_timestamp$', r'numbers::number_infix$', r'reset_size_and_date$',
-                                       r'remove_or_compress_too_old_logfiles$', r'infix_filter$', r'writes_direct$'], loop_k=1)
+                                       r'remove_or_compress_too_old_logfiles(_impl)?$', r'infix_filter$', r'writes_direct$'], loop_k=1)
     rows = I.run(b.path, arg_names=['self', 'force'])
     n_ok = 0
     sink_val = sink_trigger_value(ctx)
